@@ -13,7 +13,27 @@ P = {'id': 'C19',
               'mv_set_len_safe',
               'ro_roundtrip',
               'ro_truncated_refused',
-              'mv_torn_rewrite_v0_refuted'],
+              'mv_torn_rewrite_v0_refuted',
+              'zo_save_is_zip_image',
+              'zo_reopen_after_save',
+              'zo_truncated_refused',
+              'zo_footer_cut_reopens',
+              'zo_load_inside_file',
+              'replace_multi_crash_safe',
+              'zo_save_crash_safe',
+              'zo_resave_crash_safe',
+              'plain_crash_safe',
+              'plain_tmp_truncated',
+              'plain_put_notrunc_refuted',
+              'mv_ops_preserve_header_inv',
+              'mv_ops_sync_reopens',
+              'mv_copy_from_underreserve_refuted',
+              'ro_builder_writes_concat',
+              'ro_build_crash_safe',
+              'ro_builder_whole_blocks_refuted',
+              'mmio_roundtrip',
+              'mmio_history_inv'],
+ 'coq_deps': ['C03'],
  'trusted': ['modelled (M+S): src/memory/mmap_vec.rs MmapVecHeader::validate, open/validate_file_length, len/get, the file image sync() writes and the '
              'file operations sync()/resize_to_capacity issue; src/blob_store/reorder_map.rs builder record encoding and open/validate_entries/iteration '
              '(model evaluated against the real reader and writer on every run; round-trip and truncation theorems)',
